@@ -302,6 +302,22 @@ class Snapshot:
                     d.update({k: v for k, (v, _) in snap.items()})
                 for k, (v, content) in snap.items():
                     _restore_content(v, content)
+        # functools caches of the library are process state the census cannot look into: empty them, so that every
+        # history / schedule starts from what a fresh interpreter has (and a counterexample names its true history)
+        for name, mod in list(sys.modules.items()):
+            if not name.startswith("rtflite") or mod is None:
+                continue
+            for k, v in list(vars(mod).items()):
+                targets = [v]
+                if isinstance(v, type) and (v.__module__ or "") == name:
+                    targets = [getattr(v, ak, None) for ak in list(vars(v))]
+                for t in targets:
+                    cc = getattr(t, "cache_clear", None)
+                    if callable(cc) and not isinstance(t, type):
+                        try:
+                            cc()
+                        except Exception:  # noqa: BLE001
+                            pass
         # names re-bound since the snapshot (state kept in a global scalar or object) get their original object back
         for owner, k, v in self.bindings:
             try:
